@@ -516,7 +516,7 @@ static Token *paste(Token *lhs, Token *rhs) {
 
 static bool has_varargs(MacroArg *args) {
   for (MacroArg *ap = args; ap; ap = ap->next)
-    if (!strcmp(ap->name, "__VA_ARGS__"))
+    if (ap->is_va_args)
       return ap->tok->kind != TK_EOF;
   return false;
 }
@@ -611,8 +611,9 @@ static Token *subst(Token *tok, MacroArg *args) {
     // empty token list. Otherwise, __VA_OPT__(x) is expanded to x.
     if (equal(tok, "__VA_OPT__") && equal(tok->next, "(")) {
       MacroArg *arg = read_macro_arg_one(&tok, tok->next->next, true);
+      // Parameters inside __VA_OPT__(...) are replaced as everywhere else.
       if (has_varargs(args))
-        for (Token *t = arg->tok; t->kind != TK_EOF; t = t->next)
+        for (Token *t = subst(arg->tok, args); t->kind != TK_EOF; t = t->next)
           cur = cur->next = t;
       tok = skip(tok, ")");
       continue;
